@@ -230,8 +230,10 @@ class OdeModel:
         from .normalize import coalesce_copies
         func = coalesce_copies(func)
         # a table kept as a list of rows and flattened once (`rows[r][c] += t` .. `list(chain.from_iterable(rows))`) is the flat table
-        from .normalize import flatten_row_tables
+        from .normalize import flatten_row_tables, flatten_keyed_tables
         func = flatten_row_tables(func)
+        # ... and a dict keyed by (row, column), read out with a default into the flat list, is that flat table as well
+        func = flatten_keyed_tables(func)
         # one loop over a concatenation (`for sign, i in chain(zip(repeat(" - "), R), zip(repeat(" + "), P))`) is the loops it abbreviates
         from .normalize import split_concat_loops
         func = split_concat_loops(func)
